@@ -34,12 +34,14 @@ enum Sym {
     Topo,
     RoutesA,
     RoutesB,
+    RoutesC,
+    RoutesD,
     UpA,
     DownA,
     DownB,
     Recv,
 }
-const ALL: [Sym; 9] = [Sym::FullR, Sym::Full, Sym::Topo, Sym::RoutesA, Sym::RoutesB, Sym::UpA, Sym::DownA, Sym::DownB, Sym::Recv];
+const ALL: [Sym; 11] = [Sym::FullR, Sym::Full, Sym::Topo, Sym::RoutesA, Sym::RoutesB, Sym::RoutesC, Sym::RoutesD, Sym::UpA, Sym::DownA, Sym::DownB, Sym::Recv];
 /// session without client routes: full fetches carry no routes and no route updates are produced
 const NO_ROUTES: [Sym; 7] = [Sym::FullR, Sym::Full, Sym::Topo, Sym::UpA, Sym::DownA, Sym::DownB, Sym::Recv];
 
@@ -51,6 +53,8 @@ impl Sym {
             Sym::Topo => "merge_topology_update",
             Sym::RoutesA => "merge_client_routes_update(A)",
             Sym::RoutesB => "merge_client_routes_update(B)",
+            Sym::RoutesC => "merge_client_routes_update(C)",
+            Sym::RoutesD => "merge_client_routes_update(D)",
             Sym::UpA => "merge_up_hint(a)",
             Sym::DownA => "merge_down_hint(a)",
             Sym::DownB => "merge_down_hint(b)",
@@ -128,6 +132,9 @@ fn op_of(sym: Sym, n: u32, routes_configured: bool) -> MergeOp {
         Sym::Topo => MergeOp::Topology { peers: vec![10 * n + 1, 10 * n + 2] },
         Sym::RoutesA => MergeOp::ClientRoutes { entries: vec![(1, "c1".into(), Some(1000 + n16)), (2, "c1".into(), None)] },
         Sym::RoutesB => MergeOp::ClientRoutes { entries: vec![(2, "c1".into(), Some(2000 + n16)), (3, "c2".into(), Some(3000 + n16))] },
+        // differing sizes with overlapping keys: C lists one host, D three (upserts and a removal); content differs per fetch (port carries n)
+        Sym::RoutesC => MergeOp::ClientRoutes { entries: vec![(1, "c1".into(), Some(1500 + n16))] },
+        Sym::RoutesD => MergeOp::ClientRoutes { entries: vec![(1, "c1".into(), Some(4000 + n16)), (2, "c1".into(), Some(5000 + n16)), (3, "c2".into(), None)] },
         Sym::UpA => MergeOp::UpHint(1),
         Sym::DownA => MergeOp::DownHint(1),
         Sym::DownB => MergeOp::DownHint(2),
@@ -208,7 +215,7 @@ fn run_seq_inner(seq: &[Sym], routes_configured: bool, stats: Option<&Stats>) ->
                     if let Some(t) = responder {
                         owed.push(*t);
                     }
-                    if since.iter().any(|s| matches!(s, Sym::Topo | Sym::RoutesA | Sym::RoutesB)) {
+                    if since.iter().any(|s| matches!(s, Sym::Topo | Sym::RoutesA | Sym::RoutesB | Sym::RoutesC | Sym::RoutesD)) {
                         if let Some(st) = stats {
                             st.full_over_partial.fetch_add(1, Ordering::Relaxed);
                         }
@@ -722,7 +729,7 @@ fn main() {
     r.sample(json!({"ops": ["merge_metadata(+responder)", "merge_topology_update", "merge_client_routes_update(A)", "merge_down_hint(a)", "merge_up_hint(a)"], "trace": demo.trace}));
     r.set_rule(
         "E-ENUM through the real merge closures and channel: every word of length <= max_sequence_length over {merge_metadata with/without responder, merge_topology_update, \
-         2 x merge_client_routes_update, up/down hints on 2 addresses, recv} (+ the no-client-routes session: 7 symbols), each followed by recv / drop sender / recv / recv. \
+         4 x merge_client_routes_update (1, 2, 2 and 3 hosts, overlapping keys, differing content, removals), up/down hints on 2 addresses, recv} (+ the no-client-routes session: 7 symbols), each followed by recv / drop sender / recv / recv. \
          transitions = merge operations applied + values received; states = distinct_nontrivial = distinct multisets-in-order of merges that were coalesced into ONE received value \
          (distinct pending-value histories); traces_validated_against_impl = 0 (single-threaded, deterministic, no schedule to replay). Request side: every word of length <= \
          fetch_plan_max_length over FetchPlan::{note_full_needed, note_topology, note_client_routes with the same five pair sets, drain}; and every word of length <= starter_max_length over \
